@@ -110,8 +110,8 @@ class C16(Prop):
         tau = E.thresholds([V[i][fav[i]] for i in range(n)], m, k)
         tk = [t[k - 1] for t in tau]
         rho = rho_for(m, k)
-        if case["rule"] == "KARV" and case["seed"] % 2 == 1 and all(V[i][fav[i]] > 0 for i in range(n)):
-            # the numeric facts about the float thresholds assumed by C16_karv_end_to_end
+        if case["seed"] % 2 == 1 and all(V[i][fav[i]] > 0 for i in range(n)):
+            # the numeric facts about the float thresholds assumed by C16_karv_end_to_end / C16_tsf_end_to_end (m = n there)
             return ("num", ct(cl([cq(frac(V[i][fav[i]])) for i in range(n)]), E.cVm(tau), cq(rho), cn(m), cn(k)))
         if case["rule"] == "KARV":
             out = obs["out"]; y = out[0] if isinstance(out, list) else out
